@@ -9,6 +9,7 @@ import (
 	"sync"
 	"unsafe"
 
+	"github.com/marekgalovic/anndb/cluster"
 	"github.com/marekgalovic/anndb/index"
 	pb "github.com/marekgalovic/anndb/protobuf"
 	"github.com/marekgalovic/anndb/utils"
@@ -123,4 +124,60 @@ func (this *Allocator) VerifPlacement(partitionCount uint, replicationFactor uin
 		}
 	}
 	return res, addrs
+}
+
+// VerifNewDataset builds a Dataset object the way createDataset does (newDataset), for a
+// node `selfId`, with the given replica assignment per partition. No raft group is loaded.
+func VerifNewDataset(selfId uint64, dim uint32, space pb.Space, replicationFactor uint32, partitionNodeIds [][]uint64) (*Dataset, error) {
+	conn, err := cluster.NewConn(selfId, fmt.Sprintf("node-%d", selfId), "")
+	if err != nil {
+		return nil, err
+	}
+	id := uuid.NewV4()
+	meta := pb.Dataset{Id: id.Bytes(), Dimension: dim, Space: space, PartitionCount: uint32(len(partitionNodeIds)), ReplicationFactor: replicationFactor}
+	for _, nodeIds := range partitionNodeIds {
+		meta.Partitions = append(meta.Partitions, &pb.Partition{Id: uuid.NewV4().Bytes(), NodeIds: nodeIds})
+	}
+	return newDataset(id, meta, nil, nil, conn, nil)
+}
+
+// VerifOwnerIndex is the index (in catalogue order) of the partition an id is routed to.
+func (this *Dataset) VerifOwnerIndex(id uuid.UUID) int {
+	p := this.getPartitionForId(id)
+	for i, q := range this.partitions {
+		if p == q {
+			return i
+		}
+	}
+	return -1
+}
+
+// VerifGroupBatch is groupBatchItemsByPartition with partitions named by catalogue index.
+func (this *Dataset) VerifGroupBatch(items []*pb.BatchItem) (groups map[int][]uuid.UUID, panicked interface{}) {
+	defer func() {
+		if r := recover(); r != nil {
+			panicked = fmt.Sprint(r)
+		}
+	}()
+	groups = make(map[int][]uuid.UUID)
+	for p, its := range this.groupBatchItemsByPartition(items) {
+		idx := -1
+		for i, q := range this.partitions {
+			if p == q {
+				idx = i
+			}
+		}
+		for _, it := range its {
+			groups[idx] = append(groups[idx], uuid.FromBytesOrNil(it.GetId()))
+		}
+	}
+	return
+}
+
+func (this *Dataset) VerifPartitionIds() []uuid.UUID {
+	ids := make([]uuid.UUID, len(this.partitions))
+	for i, p := range this.partitions {
+		ids[i] = p.id
+	}
+	return ids
 }
